@@ -5,7 +5,7 @@ set -euo pipefail
 VARIANT="${1:-plain}"
 REPO="${REPO:-/repo}"
 VERIF="$(cd "$(dirname "$0")" && pwd)"
-OUT="$VERIF/build/$VARIANT"
+OUT="${OUT_DIR:-$VERIF/build/$VARIANT}"
 mkdir -p "$OUT/gen" "$OUT/eng" "$OUT/sim"
 
 COMMON_DEFS="-DNDEBUG -DLOG_LEVEL=0 -DCHESSPLUSPLUS_VERIF -DCHESSPLUSPLUS_VERIF_TT_SIZE=${VERIF_TT_SIZE:-65536} -DCHESSPLUSPLUS_VERIF_PAWN_SIZE=${VERIF_PAWN_SIZE:-1024}"
@@ -29,7 +29,7 @@ case "$VARIANT" in
     CXX=clang++
     ENG_FLAGS="-std=c++20 -O1 -g -fsanitize=thread -fno-omit-frame-pointer $COMMON_DEFS"
     SIM_FLAGS="-std=c++20 -O1 -g -fno-access-control $COMMON_DEFS -DVERIF_TSAN -DVERIF_VARIANT_NAME=tsan"
-    LD_FLAGS="-fsanitize=thread $WRAP -pthread -ldl"
+    LD_FLAGS="-fsanitize=thread -rdynamic $WRAP -pthread -ldl"
     ;;
   *) echo "unknown variant $VARIANT" >&2; exit 2;;
 esac
